@@ -53,6 +53,15 @@ CLAIMS = {
  "C15": ("other", "abstract interpretation of the three conversion helpers with type-switch paths forked and one generic iteration per worker closure; byte provenance vs the image/color conversion definitions",
    "For every pixel index and parallelism: identity arms return the same instance untouched; outputs are allocated with the input's Rect; workers stripe the rectangle (partition); byte shuffles are RGBA64->RGBA out[k]=in[2k], RGBA->RGBA64 out[2k]=out[2k+1]=in[k], NRGBA/YCbCr->RGBA64 SetRGBA64 of RGBA() positionally (A=65535 for YCbCr), YCbCr->NRGBA SetNRGBA of YCbCrToRGB with A=255, all at the same (j,i) for input and output; the input is never written; the fallback is exactly draw.Draw(out, out.Rect, img, out.Rect.Min, draw.Src).",
    "Trusted: image constructors return fresh images with Rect = argument, image/color conversion definitions, go-parallel. Not decided: equality with draw.Draw's own implementation on all stdlib types (a fact about image/draw), e.g. YCbCrToRGB vs YCbCr.RGBA()>>8.", "DESIGN.md §4 C15"),
+ "C05": ("other", "bounded abstract interpretation of the three parsers over a symbolic byte stream with an exact bit-provenance domain (go/ssa); marker-table exhaustiveness against the standard",
+   "On every explored success path of the PNG, JPEG and WebP parsers the stored width/height/bit depth consist of exactly the header bits the format specifications assign (IHDR BE32/BE32/byte after the 'IHDR' tag; SOF0/SOF2 Data[3:5], Data[1:3], Data[0]; VP8 14-bit LE fields behind 9D 01 2A, VP8L 14+14 bits behind 0x2F (+1), VP8X 24-bit LE (+1) with chunk length 10), required signatures are on the path, all fields are assigned from one header, PNG chunk headers are always read at chunk boundaries for every arm, every declared JPEG marker is routed to the stand-alone or length-carrying arm the standard prescribes with payload = length-2 read by a full-read primitive, Format is the package constant. This is the structural part of C05 (bit-for-bit provenance for all header values); agreement with image.DecodeConfig on real files is a runtime oracle and is NOT decided.",
+   "Trusted: go/ssa, the interpreter (bounded exploration: <= 3 chunks/segments per path; the per-arm position algebra generalises it), sequential read primitives, layout tables from the specifications. Not decided: JPEG constructs outside the marker table (fill bytes, SOF1, DNL), CRC/chunk-order validation.", "DESIGN.md §4 C05"),
+ "C06": ("other", "bounded abstract interpretation of the parsers (stream positions, event chains), who-may-write on the ICC fields, call-site classification of payload reads",
+   "Bytes and error are never both set (who-may-write + setter forms); WebP: presence = bit 5 of the VP8X flags, payload = exactly the 'ICCP' chunk bytes in[38:38+len], absence gives (nil,nil), damage gives an error with dimensions kept; PNG: bytes = Bytes() of io.Copy(buffer, zlib.NewReader(chunk bytes after name+NUL+zero method byte)) reached only with both zlib errors nil, either error recorded, dimensions kept; JPEG: 12-byte identifier, slot = Data[12]-1 with Data[14:] under number != 0 / <= count guards, ascending assembly into one buffer, and a recorded error is never overwritten by data (sticky) - this last rule found a genuine defect, repaired in /repo; no payload is read with a bare Read.",
+   "Trusted: go/ssa, the interpreter (bounded exploration), io.CopyN/io.Copy/zlib/bytes.Buffer contracts. Not decided: byte equality through bufio/zlib for multi-MiB payloads (library contracts).", "DESIGN.md §4 C06"),
+ "C18": ("other", "exact stream-position algebra on explored parser paths (abstract interpretation) + CFG must-pass-through of the completeness test + flow rules on buffering",
+   "Once the metadata is complete no further chunk/segment is read (path ends exactly at the end of the completing chunk; and in the CFG every completion point is followed by `if allMetadataExtracted() { break }` on every path back to the loop header); IDAT/IEND and SOS/EOI stop without further reads; exactly one bufio layer of at most 64 KiB and no read-to-EOF on the source; the WebP parser is loop-free and ends at the end of the header or right after the ICCP payload; reading a JPEG marker consumes exactly 2 or 4 bytes (no forward scanning).",
+   "Trusted: go/ssa, the interpreter, bufio's read-ahead bound. Not decided: the measured byte count and the truncation clause (runtime quantities); damaged profiles are outside the statement.", "DESIGN.md §4 C18"),
 }
 
 PENDING_REASON = "check not built yet in this revision (static rules designed in DESIGN.md §4; see git log) — not claimed until the checker for it is committed"
